@@ -208,6 +208,8 @@ def run_case_for(pid, case):
     ms = case.get("cfg", {}).get("maxStack")
     if ms is not None:
         opts["MAX_TASK_STACK_SIZE"] = ms
+    if case.get("cfg", {}).get("keepDeps"):
+        opts["KEEP_DEPENDENCIES"] = True
     c2 = dict(case)
     c2["opts"] = opts
     tr = run_program(c2)
